@@ -155,6 +155,11 @@ MISC = {
     'long_line': 'x = ' + ' + '.join(['1'] * 40), 'deep_parens': 'x = ' + '(' * 5 + '1' + ')' * 5, 'deep_unary': 'x = ' + '-' * 6 + '1',
     'long_string': 'PRINT "' + 'a' * 3000 + '"', 'many_vars': '\n'.join(f'v{i} = {i}' for i in range(60)), 'big_literals': 'x = 1E400\ny& = 99999999999\nz% = 40000',
     'hex_literals': 'PRINT &HFFFF; &H10000; &O17; &HFFFFFFFF; &H', 'num_suffixes': 'PRINT 1%; 1&; 1!; 1#; 1.5%; 70000%; 1E5#; 1D5', 'empty_program': '', 'only_comment': "' hello\nREM x",
+    # record parameters (the defect repaired by c742259: a parameter is one frame cell whatever its type)
+    'record_param': 'TYPE rp1\n x AS INTEGER\n y AS LONG\nEND TYPE\nDIM ra AS rp1\nra.x = 3\nra.y = 100000\nCALL rsh(ra)\nPRINT ra.x\nSUB rsh (p AS rp1)\nPRINT p.x; p.y\np.x = 9\nEND SUB',
+    'record_param_then_scalar': 'TYPE rp2\n x AS INTEGER\n y AS LONG\n z AS STRING\nEND TYPE\nDIM rb AS rp2\nrb.z = "q"\nk% = 4\nCALL rs2(rb, k%, 7)\nPRINT k%; rb.x\nSUB rs2 (p AS rp2, n%, m)\nDIM loc AS rp2\nloc.y = m\np.x = n% + loc.y\nn% = 5\nPRINT p.z\nEND SUB',
+    'record_param_function': 'TYPE rp3\n a AS DOUBLE\n b AS DOUBLE\nEND TYPE\nDIM rc AS rp3\nrc.a = 1.5\nrc.b = 2\nPRINT rsum(rc, 1)\nFUNCTION rsum (p AS rp3, w%)\nrsum = p.a + p.b + w%\nEND FUNCTION',
+    'record_array_elem_param': 'TYPE rp4\n a AS INTEGER\n b AS INTEGER\nEND TYPE\nDIM rd(1 TO 3) AS rp4\nrd(2).b = 8\nCALL re(rd(2), 1)\nPRINT rd(2).a\nSUB re (p AS rp4, n%)\np.a = p.b + n%\nEND SUB',
     'unicode_string': 'PRINT "\u00e9\u2591"', 'tab_chars': 'PRINT\t1\t+\t2', 'crlf': 'PRINT 1\r\nPRINT 2\r\n',
 }
 
